@@ -111,6 +111,29 @@ pub fn scenario(shards: usize, sha1: bool, prog: &str) -> Scenario {
                 s = s.send_z(b, &format!("P B E S key={}", k));
             }
         }
+        "batch-second" => {
+            // pipelined batches: the statement that carries the key is not the first Parse of its batch
+            // (a key-less statement comes first); the batch runs on one server, the key's shard
+            for (i, k) in keys.iter().enumerate() {
+                let e = expected(*k, shards, sha1);
+                let mut b = wire::parse("", &format!("SELECT 'nokey' /*{}*/", next(&mut t)), &[]);
+                b.extend(wire::bind("", "", &[], &[], &[]));
+                b.extend(wire::execute("", 0));
+                let tg = next(&mut t);
+                let second = match i % 3 {
+                    0 => format!("/* sharding_key: {} */ INSERT INTO notes VALUES (1) /*{} expect={}*/", k, tg, e),
+                    1 => format!("SELECT * FROM data WHERE id = {} /*{} expect={}*/", k, tg, e),
+                    _ => format!("/* shard_id: {} */ SELECT 2 /*{} expect={}*/", e, tg, e),
+                };
+                b.extend(wire::parse("", &second, &[]));
+                b.extend(wire::bind("", "", &[], &[], &[]));
+                b.extend(wire::execute("", 0));
+                b.extend(wire::sync());
+                s = s.send_z(b, &format!("P B E P(key {}) B E S", k));
+                // the selection persists
+                s = s.q(&sel(&next(&mut t), &e.to_string()));
+            }
+        }
         _ => panic!("unknown program"),
     }
     s = s.terminate();
@@ -204,7 +227,7 @@ pub fn build(tier: &str) -> SimCheck {
     let counts: Vec<usize> = if thorough { vec![2, 3, 5, 11, 12] } else { vec![3, 11] };
     for n in counts {
         for sha1 in [false, true] {
-            for prog in ["set-shard-each", "set-key", "out-of-range", "any", "comment", "literal", "bind"] {
+            for prog in ["set-shard-each", "set-key", "out-of-range", "any", "comment", "literal", "bind", "batch-second"] {
                 if sha1 && !thorough && !["set-key", "literal"].contains(&prog) {
                     continue;
                 }
@@ -217,7 +240,7 @@ pub fn build(tier: &str) -> SimCheck {
         oracle: Box::new(oracle),
         bound: 0,
         limits: Limits::default(),
-        rule: "sim: shard counts {3,11} (thorough {2,3,5,11,12}) x both sharding functions x 7 routing programs (SET SHARD to every shard with persistence, SET SHARDING KEY, out-of-range SET SHARD, ANY, comment regexes, literals in SELECT/INSERT/UPDATE/DELETE, Bind with the key in $1/$2/$3) on the real pooler with one labelled backend per shard server".into(),
+        rule: "sim: shard counts {3,11} (thorough {2,3,5,11,12}) x both sharding functions x 8 routing programs (pipelined batches whose second Parse carries the key as a comment / literal / shard id, SET SHARD to every shard with persistence, SET SHARDING KEY, out-of-range SET SHARD, ANY, comment regexes, literals in SELECT/INSERT/UPDATE/DELETE, Bind with the key in $1/$2/$3) on the real pooler with one labelled backend per shard server".into(),
         assumptions: vec!["expected shard computed by the independent PostgreSQL hash reference".into()],
     }
 }
